@@ -327,6 +327,9 @@ func (g *Gen) VerifyFunction(ct *Contract) *FuncResult {
 	}
 	// loop ordinals named by the contract must exist
 	for k := range ct.Loops {
+		if k == 0 {
+			continue // "loop *"
+		}
 		found := false
 		for _, li := range fe.loops {
 			if li.ordinal == k {
